@@ -670,7 +670,7 @@ def _check(case: dict) -> dict:
     elif what['code'] in (14, 15) and 'value' in own:
         # whatever was done to it, the attribute now holds a next hop or an NLRI that cannot be read
         judge.kind = 'unreadable-nexthop-or-nlri'
-    elif case['cor']['kind'] in ('lenfield', 'extlen', 'flip') or case['cor'].get('random'):
+    elif case['cor']['kind'] in ('lenfield', 'extlen', 'flip', 'swallow') or case['cor'].get('random'):
         # a moved boundary or random bytes: name the fault it makes of the attribute itself (zero-length, value, framing:overrun ...)
         judge.kind = own[0] if own else kind
 
